@@ -704,6 +704,10 @@ class Frame:
             if q.status != "live":
                 out.append((q, None))
                 continue
+            if d0 is None and isinstance(tt, Sym) and tt.head in ("and", "or", "unop:Not") and tt.args:
+                # a local that holds a combined test (`keep = a and not b; if keep:`): split it as well
+                out.extend(self._branch_term(tt, q, txt))
+                continue
             d = d0 if d0 is not None else self.implied(q, tt)
             if d is not False:
                 a = q.fork() if d is None else q
@@ -715,6 +719,36 @@ class Frame:
                 b.conds.append((txt, False, tt.key()))
                 self.narrow(test, False, b)
                 out.append((b, False))
+        return out
+
+    def _branch_term(self, tt: Term, p: Path, txt: str) -> List[Tuple[Path, Optional[bool]]]:
+        """branch() on an already evaluated boolean term (its atoms are pure: no events are replayed)."""
+        if isinstance(tt, Sym) and tt.head == "unop:Not" and tt.args:
+            return [(q, (None if v is None else (not v))) for q, v in self._branch_term(tt.args[0], p, txt)]
+        if isinstance(tt, Sym) and tt.head in ("and", "or") and tt.args:
+            stop = tt.head == "or"
+            cur: List[Tuple[Path, Optional[bool]]] = [(p, not stop)]
+            for a in tt.args:
+                nxt: List[Tuple[Path, Optional[bool]]] = []
+                for q, val in cur:
+                    if val is None or val == stop:
+                        nxt.append((q, val))
+                    else:
+                        nxt.extend(self._branch_term(a, q, txt))
+                cur = nxt
+            return cur
+        d = self.implied(p, tt)
+        if isinstance(tt, Const) and not isinstance(tt.v, _Sentinel):
+            d = bool(tt.v)
+        out: List[Tuple[Path, Optional[bool]]] = []
+        if d is not False:
+            a = p.fork() if d is None else p
+            a.conds.append((txt, True, tt.key()))
+            out.append((a, True))
+        if d is not True:
+            b = p.fork() if d is None else p
+            b.conds.append((txt, False, tt.key()))
+            out.append((b, False))
         return out
 
     def do_if(self, st: ast.If, p: Path) -> List[Path]:
@@ -1528,6 +1562,22 @@ class Frame:
         if callee.head.startswith("attr:") and callee.args:
             mname = callee.head[5:]
             recv = callee.args[0]
+            if mname == "format" and isinstance(recv, Const) and isinstance(recv.v, str) and not kw:
+                # "…{}…".format(a, b) is the f-string with the same pieces
+                import re as _re
+                pieces = _re.split(r"(\{\d*\})", recv.v)
+                holes = [x for x in pieces if _re.fullmatch(r"\{\d*\}", x)]
+                if holes and "{" not in "".join(x for x in pieces if x not in holes) and len(holes) == len(pos) and (all(h == "{}" for h in holes) or [h for h in holes] == ["{%d}" % i for i in range(len(pos))]):
+                    items, k_ = [], 0
+                    for x in pieces:
+                        if x in holes and _re.fullmatch(r"\{\d*\}", x):
+                            items.append(pos[k_])
+                            k_ += 1
+                        elif x:
+                            items.append(Const(x))
+                    if all(isinstance(i_, Const) and isinstance(i_.v, str) for i_ in items):
+                        return [(p, Const("".join(i_.v for i_ in items)))]
+                    return [(p, Sym("fstr", tuple(items)))]
             rc = getattr(self.ctx, "sym_self_cls", None)
             if rc is not None and isinstance(recv, Sym) and recv.head == "self" and not recv.args and mname not in self.ctx.no_inline:
                 # a method of a plain (non-node) class analysed with a symbolic self: inline its private methods
